@@ -55,6 +55,13 @@ def programs(tier):
     out.append(("nest", {"name": "map[3:s2,maxc2]", "seq": [{"k": "map", "items": [1, 2, 3], "body": B["s2"], "cfg": {"cc": "all_completed", "maxc": 2}}]}))
     out.append(("nest", {"name": "par[w2,s5]maxc1", "seq": [par(["w2", "s5"], {"cc": "all_completed", "maxc": 1})]}))
     out.append(("nest", {"name": "par[w2,w2]default-cfg", "seq": [{"k": "par", "branches": [B["w2"], B["w2"]]}]}))
+    # a timed-suspended branch becomes due while its sibling parks: the sibling's function runs d seconds, d on a grid
+    # around the branch's wake-up time (the refresh checkpoint of the resubmission is in flight for part of it)
+    for d in (0.8, 0.9, 1.0, 1.1, 1.2, 1.3, 1.4):
+        for park in ("cb", "w2"):
+            sib = [{"k": "step", "fn": {"sleep": d, "then": {"ret": "sib"}}}] + __import__("copy").deepcopy(B[park])
+            out.append(("grid", {"name": f"par[w1s,s{d}.{park}]", "seq": [
+                {"k": "par", "cfg": {"cc": "all_completed"}, "branches": [__import__("copy").deepcopy(B["w1s"]), sib]}]}))
     # degenerate shapes
     out.append(("degen", {"name": "par[]", "seq": [{"k": "par", "branches": [], "cfg": {"cc": "all_completed"}}]}))
     out.append(("degen", {"name": "par[]maxc2", "seq": [{"k": "par", "branches": [], "cfg": {"cc": "all_completed", "maxc": 2}}]}))
@@ -70,7 +77,14 @@ def space(tier):
     units = []
     for kind, p in programs(tier):
         base = {"env_kinds": ["deliver"], "spurious": True}
-        units.append(({"program": p, "cfg": dict(base)}, {"deliver": 9, "total": 9}, cap))
+        if kind == "grid":
+            for lat in (0.0, 0.3):
+                for pol in ("rtb", "low", "high"):
+                    units.append(({"program": p, "cfg": {"env_kinds": [], "policy": pol, "grace": 1.0, "api_latency": lat,
+                                                         "timer_choices": False}},
+                                  {"thread": 1, "total": 1} if (pol == "rtb" or not quick) else {"total": 0}, cap))
+            continue
+        units.append(({"program": p, "cfg": dict(base, grace=1.0 if kind != "top" else 0.0)}, {"deliver": 9, "total": 9}, cap))
         if kind in ("top", "par2", "nest", "degen"):
             units.append(({"program": p, "cfg": {"env_kinds": ["crash"]}}, {"crash": 1, "total": 1}, cap))
         if kind != "top":
@@ -88,5 +102,7 @@ simcheck.install(globals(), "C07", [monitors.judge_c07], space,
                  "wait_for_callback} at top level; every 2-branch parallel over 14 branch bodies (waits, steps whose "
                  "functions run 0/2/5 virtual seconds, callback, invoke with/without timeout, wait_for_condition with "
                  "delay 1/0, retrying step with delay 2/0, wait_for_callback); 7 three-branch shapes; nesting 2; "
-                 "max_concurrency; zero branches/items; all delivery orders of timers/callbacks/invokes incl. one "
+                 "max_concurrency; zero branches/items; a 14-program grid in which a sibling parks 0.8..1.4 s after start while a 1 s "
+                 "timed-suspended branch becomes due (with 0 and 300 ms API latency, one preemption); threads keep running for "
+                 "1 virtual second after the wrapper returned so that work started after PENDING is seen; all delivery orders of timers/callbacks/invokes incl. one "
                  "spurious re-invocation; every single crash point; policies rtb/low/high; +1 scheduling/timer deviation")
